@@ -175,6 +175,15 @@ func buildTemplates(tier string) []tmpl {
 			{Vars: []Var{vr(0, 10)}, Get: []string{"v0"}, Set: []string{"v0"}},
 			{Comps: []int{0}}},
 			[]Method{{F: 1, Kind: "whopper", Msg: "set-v0", Stop: true}, {F: 0, Kind: "before", Msg: "set-v0"}}},
+		// daemons that signal an error: the send fails, what ran before stays done
+		tmpl{"error/before", shapes[0].flavors, []Method{{F: 0, Kind: "before", Msg: "m"}, {F: 1, Kind: "before", Msg: "m", Err: true}, {F: 2, Kind: "primary", Msg: "m"}}},
+		tmpl{"error/primary", shapes[0].flavors, []Method{{F: 0, Kind: "whopper", Msg: "m"}, {F: 1, Kind: "primary", Msg: "m", Err: true}, {F: 0, Kind: "after", Msg: "m"}}},
+		tmpl{"error/whopper", shapes[2].flavors, []Method{{F: 2, Kind: "whopper", Msg: "m"}, {F: 1, Kind: "whopper", Msg: "m", Err: true}, {F: 0, Kind: "before", Msg: "m"}}},
+		tmpl{"error/after-setter", []Flavor{
+			{Vars: []Var{vr(0, 10)}, Get: []string{"v0"}, Set: []string{"v0"}},
+			{Vars: []Var{vr(1, 21)}, Get: []string{"v1"}, Set: []string{"v1"}},
+			{Comps: []int{0, 1}}},
+			[]Method{{F: 1, Kind: "after", Msg: "set-v0", Err: true}, {F: 2, Kind: "before", Msg: "set-v1", Err: true}, {F: 0, Kind: "after", Msg: "v0", Err: true}}},
 		// :included-flavors: the included flavor follows the includer's components
 		tmpl{"included/siblings", []Flavor{
 			{Vars: []Var{vr(0, 10)}, Get: []string{"v0"}},
@@ -406,9 +415,11 @@ func gen(r *rand.Rand, i int, tier string) Case {
 		nm = 2*nf + r.IntN(nf+1)
 	}
 	seenM := map[Method]bool{}
+	errCase := r.IntN(5) == 0 // minority: some daemons signal an error
 	for k := 0; k < nm; k++ {
 		m := Method{F: r.IntN(nf), Kind: kinds[weighted(r, []int{3, 3, 3, 2})]}
 		stop := m.Kind == "whopper" && r.IntN(5) == 0
+		fails := errCase && !stop && r.IntN(4) == 0
 		sel := weighted(r, []int{62, 8, 10, 7, 13})
 		if dense {
 			sel = 0
@@ -438,6 +449,7 @@ func gen(r *rand.Rand, i int, tier string) Case {
 		}
 		seenM[m] = true
 		m.Stop = stop
+		m.Err = fails && m.Msg != "init" // an error in :init would leave no instance to observe
 		c.Methods = append(c.Methods, m)
 	}
 	// history: a random admissible order under one of three biases
